@@ -419,6 +419,9 @@ func execSendHook(t *testing.T, sc *SendScenario, logger mlog.Logger, hook func(
 func (r *SendRun) fill(out *Outcome) {
 	out.SimNs, out.Steps, out.Digest = r.Res.VirtualNs, r.Res.Steps, r.Res.Digest
 	out.Infra = r.Infra
+	if r.Res.Adoptions > 0 {
+		out.stat("probe.goroutine-of-the-program-adopted", r.Res.Adoptions)
+	}
 	if r.Env != nil {
 		for _, p := range r.Env.Pipes {
 			if p.ResetFired {
